@@ -44,7 +44,11 @@ where
     fn deserialize_pk(bytes: &[u8]) -> Result<Self::Pk, InternalError> {
         PublicKey::<Self>::from_sec1_bytes(bytes)
             .map(|public_key| public_key.to_projective())
-            .map_err(|_| InternalError::PointError)
+            .ok()
+            // Only accept the compressed encoding that `serialize_pk()` produces, not the other
+            // SEC1 forms of the same point
+            .filter(|pk| Self::serialize_pk(*pk).as_slice() == bytes)
+            .ok_or(InternalError::PointError)
     }
 
     fn random_sk<R: RngCore + CryptoRng>(rng: &mut R) -> Self::Sk {
